@@ -235,10 +235,13 @@ def run_cg(ctx, model, case):
         return
     # decision margins of the stopping test along the model's trajectory
     tolsq = mo["tolsq"]
+    bn2 = float(np.linalg.norm(_arr(case["b"], case["cplx"]))) ** 2
     for s in mo["trace"]:
         num = float(np.real(s["num"]))
         marg = abs(num - tolsq) / max(abs(tolsq), 1e-300)
-        if 0 < marg < 1e-6 and s["ii"] < case["maxiter"]:
+        # relative near-tie, or a rounding-level residual compared with a rounding-level threshold (the decision then
+        # depends on the summation order); exact ties (num == tolsq, e.g. both 0) are kept
+        if s["ii"] < case["maxiter"] and num != tolsq and (marg < 1e-6 or abs(num - tolsq) <= 1e-22 * (1.0 + bn2)):
             ctx.count("cg:discard-near-tie")
             return
     K = mo["num_iter"]
@@ -608,17 +611,11 @@ def run_atad(ctx, model, case):
     _, _, _, b, _ = _atad_arrays(case)
     kk = 100 * (m + n) * max(1, k)
     bad = None
-    if _atad_zero_weight(case) and not np.all(np.isfinite(im["x"])):
-        # Woodbury path with a non-invertible W: 1/0 in a complex dtype is (inf + nan j) and the LU solve returns NaN
-        ctx.disagree("linsolve.atad.zero-weight-woodbury", case, tolist(im["x"]), tolist(mo["x"]), oracle=oracle_atad, known_id="atad-zero-weight")
-        return
-    if im["gsize"] != mo["gsize"] or mo["woodbury"] != (im["gsize"] == m and m < n):
+    if im["gsize"] != mo["gsize"] or (m != n and mo["woodbury"] != (im["gsize"] == m)):
         bad = ("branch", im["gsize"], mo["gsize"])
     elif im["G"] is not None and np.all(np.isfinite(mo["G"])) and not vclose(im["G"], mo["G"], kk):
         bad = ("G", tolist(im["G"]), tolist(mo["G"]))
-    elif not _atad_zero_weight(case) and not vclose(im["x"], mo["x"], kk, rtol=1e-8):
-        # (with a zero weight on the Woodbury path the model's x goes through 1/0 and is outside C14_woodbury_matrix;
-        #  the real x is then checked through the residual of the documented system only)
+    elif not vclose(im["x"], mo["x"], kk, rtol=1e-8):
         bad = ("x", tolist(im["x"]), tolist(mo["x"]))
     elif not vclose(mo["lhs_impl"], b, kk, rtol=1e-8):
         bad = ("residual_at_returned_x", tolist(mo["lhs_impl"]), tolist(b))
@@ -1100,10 +1097,7 @@ def correspond(ctx, model):
 
 
 def findings(ctx, model):
-    _setup()
-    if ctx.is_known("atad-zero-weight"):
-        r = oracle_atad(ATAD_ZW_WITNESS)
-        ctx.known_finding("atad-zero-weight", r is not None)
+    pass  # no open finding for C14 (see the `fixed:` lines of known_findings.txt; their witnesses are corpus cases)
 
 
 def search(ctx, model, why):
@@ -1113,8 +1107,6 @@ def search(ctx, model, why):
         q, t = BUDGET[kind]
         for _ in range(max(10, ctx.n(q, t) // 4)):
             case = GENS[kind](ctx.rng)
-            if kind == "atad" and _atad_zero_weight(case) and ctx.is_known("atad-zero-weight"):
-                continue
             ctx.count(f"search:{kind}")
             r = orc(case)
             if r is not None:
